@@ -106,7 +106,8 @@ def make_replayer():
         if fn == 'sgemv':
             names.append('sgemv')
         hits = {k: v for k, v in bat.result.items() if k in names}
-        info = {'battery': 'engine/replay/kernel_battery.py on an overlay '
+        info = {'rerun': {'battery': 'kernel', 'oracles': names},
+                'battery': 'engine/replay/kernel_battery.py on an overlay '
                 'build of the current tree: compiled kernel against the '
                 'element-wise definition, whole buffers compared',
                 'kernel': fn, 'failing_cases': hits,
